@@ -171,6 +171,7 @@ def shape_agreement(repo: Repo, chk: Check, cls: Cls) -> None:
             it.tag = "from-header"  # type: ignore[assignment]
     chk.table(f"{cls.name} shape", [i.describe() for i in w])
     ctor = _ctor_fields(repo, fr, cls, rs.node)
+    ctor = {k: rs.aliases.get(v, v) for k, v in ctor.items()}
     chk._rs_node = rs.node  # type: ignore[attr-defined]
     chk._rs_readers = {k for k in rs.readers if k.isidentifier()}  # type: ignore[attr-defined]
     chk._rs_headers = set(rs.header_tests)  # type: ignore[attr-defined]
@@ -426,6 +427,13 @@ def layouts(repo: Repo, chk: Check) -> None:
             cikw = _kw(t.cast(ast.Call, civ), repo.cls("_pkcs7.ContentInfo")) if isinstance(civ, ast.Call) else {}
             cc = cikw.get("content")
             ok3 = ps.text(w1) == "ASN1Writer()" and ps.text(w2) == "ASN1Writer()" and ps.key(w1) != ps.key(w2) and cc is not None and ps.key(cc) == f"{ps.key(w1)}.get_data#{getattr(cc, '_uid', 0)}()"
+            from .util import concat_parts
+
+            el = [x for x in concat_parts(v) if not (isinstance(x, ast.Constant) and x.value == b"")]
+            if len(el) == 1 and inside:
+                el = el + [ast.Constant(value=b"")]  # nothing trails the ContentInfo
+            elif len(el) == 1:
+                el = []
             if len(el) == 2:
                 e0 = el[0]
                 while isinstance(e0, ast.Call) and isinstance(e0.func, ast.Name) and e0.func.id in ("bytes", "bytearray") and len(e0.args) == 1 and not e0.keywords:
@@ -458,8 +466,12 @@ def layouts(repo: Repo, chk: Check) -> None:
         kws = _kw(v, blob) if isinstance(v, ast.Call) and ps.text(v.func) in ("DPAPINGBlob", "cls") else {}
         got = {k: ps.short(x, abbr) for k, x in kws.items()}
         encc = got.get("enc_content", "")
-        ok2 = encc in ("ED.encrypted_content_info.content or memoryview(data)[H.tag_length + H.length:].tobytes()", "ED.encrypted_content_info.content or memoryview(data)[H.length + H.tag_length:].tobytes()")
-        chk.ob("O4", Site.of(fu, cis[0].node, "outer TLV boundary"), bool(ok1) and ("H.tag_length" in encc), "trailing data starts at tag_length + length of the outer TLV" if ok1 else "the boundary between the ContentInfo and the trailing ciphertext is not header.tag_length + header.length")
+        A_ = "ED.encrypted_content_info.content"
+        B_ = ("memoryview(data)[H.tag_length + H.length:].tobytes()", "memoryview(data)[H.length + H.tag_length:].tobytes()")
+        decided = [pol for e, pol in ps.atoms() if ps.short(e, abbr) == A_]
+        # `A or B` in one expression, or the same choice made by a branch: A on the path where A is non-empty, B where it is empty
+        ok2 = encc in tuple(f"{A_} or {b_}" for b_ in B_) or (decided == [True] and encc == A_) or (decided == [False] and encc in B_)
+        chk.ob("O4", Site.of(fu, cis[0].node, "outer TLV boundary"), bool(ok1) and ("H.tag_length" in encc or (decided == [True] and encc == A_)), "trailing data starts at tag_length + length of the outer TLV" if ok1 else "the boundary between the ContentInfo and the trailing ciphertext is not header.tag_length + header.length")
         chk.ob("O4", Site.of(fu, ps.exit_node, "enc_content"), ok2, "content = envelope content, else the trailing bytes (empty counts as absent)" if ok2 else f"enc_content is '{encc}': the trailing ciphertext must be used whenever the envelope carries no (or empty) content")
         a_ed = [ps.short(x, abbr) for x in t.cast(ast.Call, eds[0].tree).args]
         a_ki = [ps.short(x, abbr) for x in t.cast(ast.Call, kis[0].tree).args]
